@@ -9,9 +9,10 @@ ID=${1:?id}; MODE=${2:-quick}
 id=$(echo "$ID" | tr 'A-Z' 'a-z')
 mkdir -p .work/bin evidence
 SCHED_IDS=" c04 c05 c09 c10 c17 c18 c19 "
-bin=.work/bin/$id
+bin=/verif/.work/bin/$id
 if [[ "$SCHED_IDS" == *" $id "* ]]; then
   ./sched_build.sh "$id" || { echo "INFRA-ERROR: build of $id failed"; exit 2; }
+  export VERIF_RACE_BIN=/verif/.work/bin/$id-race
 else
   go build -o "$bin" ./checks/$id 2> .work/build-$id.log || { cat .work/build-$id.log; echo "INFRA-ERROR: build of $id failed"; exit 2; }
 fi
